@@ -11,6 +11,10 @@ CHECKS = {
          "bounded-exhaustive enumeration of policies; each compiled filter is executed in a cBPF interpreter over struct seccomp_data on a closed input set (thorough: full 2^32 syscall-number and architecture-tag sweeps) against the reference policy semantics",
          "Every assignment {absent, allow, trace} of a 6-name (thorough: 8) syscall alphabet x 8 default-action values x both list orders, plus whole-table / alternating / shipped run-program policies that force the long-jump code paths, plus malformed policies that must be refused. The filter that Build() hands to the kernel (after ExportBPF, via SockFprog) is interpreted with kernel cBPF semantics on native-arch x {0..4095 (thorough 0..65535), every table number +-1 with and without bit 30 / bit 31, boundary values} and on 63 foreign/flipped architecture tags; thorough adds complete 2^32 syscall-number sweeps (6 policies x 3 tags) and complete 2^32 architecture sweeps.",
          "Trusted: /verif/cbpf interpreter (kernel classic-BPF semantics for the seccomp subset; a structural pass re-checks per program that only nr and arch are loaded, so ip/args cannot matter). For nr >= 2^31 with bit 30 clear the oracle accepts refusal or the default action (the dependency refuses everything >= 2^30, which is stricter than the property)."),
+ "C06": ("exploration",
+         "bounded-exhaustive enumeration of descriptor lists x ExecFile placement x socketpair placement x vfork/non-vfork on real launches of a self-reporting probe, each configuration started twice; identity oracle on (st_dev, st_ino)",
+         "Every descriptor list of length <=3 (thorough: <=4) over {close marker, caller fds 0,1,2, reserved low fds, high fds, the ExecFile number} x ExecFile in {none, low, high} x internal socketpair landing inside or above the listed range x vfork / non-vfork, started twice from the same Runner value; the program (static C probe) reports every open descriptor with (dev, ino, cloexec); slot i must be the i-th listed open file, marker slots closed, nothing else open, Runner deep-equal before/after, second start identical. Plus container.Execve with Files/ExecFile lists (sync before/after exec).",
+         "The harness makes all of its own descriptors close-on-exec and only shapes descriptor numbers it reserved itself (Go runtime descriptors are never touched). Process creation does not scale on this VM (~450 launches/s in total), which bounds the alphabet; quick uses a reduced value alphabet."),
  "C09": ("exploration",
          "exhaustive enumeration of the finite domain (exit codes x terminating signals x faults x child variants x 4 runner set-ups) on real runs, against the documented status table",
          "Every exit code (quick: 6 representatives, thorough: 0..255), every signal 1..64 whose default action terminates (self-raised with a raw kill and default disposition), five kernel-forced faults, SIGKILL from the host while the program runs, and main-process endings combined with a child that exits / is signalled before, while or after the main process ends, under the ptrace runner, the namespace runner, and a container with sync before and after exec; result status and exit value compared with the README table.",
